@@ -428,6 +428,7 @@ class GenStream(ProgStream):
     name = "gen"
 
     def cases(self, ctx):
+        self.parallel = ctx.tier == "thorough"  # a few hundred cases run faster in-process than through a pool
         rng = ctx.rng_for("gen")
         return [gen_case(rng) for _ in range(ctx.scale(500, 8000))]
 
@@ -438,6 +439,7 @@ class GenProgStream(ProgStream):
     def cases(self, ctx):
         from ..gen.templates import gen_data, gen_program
 
+        self.parallel = ctx.tier == "thorough"
         rng = ctx.rng_for("genprog")
         out = []
         for _ in range(ctx.scale(150, 2500)):
